@@ -284,6 +284,26 @@ func c17server(res *run.Result, pats []string) {
 // with small and default COUNT values. The union of the keys returned by one full iteration (the key space does
 // not change meanwhile) must be exactly the keys the pattern selects, and the iteration must end.
 func c17iterate(res *run.Result, pats []string) {
+	c17iterateOver(res, c17.storeKey, pats, nil)
+	// one batch in eight also iterates over a store of 2500 keys: sparse and dense patterns with small, default
+	// and very large COUNT (a call that examines many keys without filling its page, a page larger than the store)
+	if res.Inconclusive == "" && len(res.Violations) == 0 && len(pats) > 0 && gen.Hash64([]byte(strings.Join(pats, "\x00")))%8 == 0 {
+		var keys []string
+		for i := 0; i < 2400; i++ {
+			keys = append(keys, fmt.Sprintf("a%04d", i))
+		}
+		for i := 0; i < 100; i++ {
+			keys = append(keys, fmt.Sprintf("a%04d%s", i*24+rangeOf(i), []string{"$", "(", ".", "*", "+"}[i%5]))
+		}
+		c17iterateOver(res, keys, []string{"*$", "a1*", "*(", "a?0?1", "*9", "a2*."}, []string{"", "10", "5000", "1", "997", "1000", "1001"})
+	}
+}
+
+func rangeOf(i int) int { return (i * 7) % 24 }
+
+// c17iterateOver: full SCAN iterations over a store holding keys. counts == nil: default COUNT and 1, 3, 7 in turn.
+func c17iterateOver(res *run.Result, keys []string, pats []string, counts []string) {
+	big := counts != nil
 	srv := exsrv.NewServer().Server
 	conn := sconn.New(sconn.Script{End: sconn.Hold})
 	wait := double.Start(srv, conn, nil)
@@ -303,7 +323,7 @@ func c17iterate(res *run.Result, pats []string) {
 		}
 		return vs[0], true
 	}
-	for i, k := range c17.storeKey {
+	for i, k := range keys {
 		var req resp.Value
 		switch i % 5 {
 		case 0:
@@ -320,20 +340,24 @@ func c17iterate(res *run.Result, pats []string) {
 			return
 		}
 	}
-	if len(pats) > 4 {
+	if len(pats) > 4 && !big {
 		pats = pats[:4]
 	}
 	for pi, p := range append([]string{"*"}, pats...) {
 		want := map[string]bool{}
-		for _, k := range c17.storeKey {
+		for _, k := range keys {
 			if globref.Match(p, k) {
 				want[k] = true
 			}
 		}
-		for _, count := range []string{"", "1", "3", "7"}[pi%2*2 : pi%2*2+2] {
+		cs := []string{"", "1", "3", "7"}[pi%2*2 : pi%2*2+2]
+		if big {
+			cs = []string{counts[pi%len(counts)], counts[(pi+3)%len(counts)]}
+		}
+		for _, count := range cs {
 			got := map[string]bool{}
 			cursor, steps, done := "0", 0, false
-			for steps = 0; steps < 2*len(c17.storeKey)+10; steps++ {
+			for steps = 0; steps < 2*len(keys)+10; steps++ {
 				args := []string{"SCAN", cursor, "MATCH", p}
 				if count != "" {
 					args = append(args, "COUNT", count)
@@ -355,7 +379,7 @@ func c17iterate(res *run.Result, pats []string) {
 			res.Count("scan_iterations", 1)
 			res.Count("scan_iteration_calls", int64(steps+1))
 			if !done {
-				res.Violate("C17:server:scan-iteration-endless", "KEYS and SCAN MATCH agree on which keys a pattern selects (a SCAN iteration ends with cursor 0)", fmt.Sprintf("SCAN MATCH %q COUNT %q over %d keys: cursor 0 did not come back within %d calls (last cursor %s)", p, count, len(c17.storeKey), steps, cursor), map[string]any{"pattern": p, "count": count})
+				res.Violate("C17:server:scan-iteration-endless", "KEYS and SCAN MATCH agree on which keys a pattern selects (a SCAN iteration ends with cursor 0)", fmt.Sprintf("SCAN MATCH %q COUNT %q over %d keys: cursor 0 did not come back within %d calls (last cursor %s)", p, count, len(keys), steps, cursor), map[string]any{"pattern": p, "count": count})
 				return
 			}
 			var missing, extra []string
@@ -418,7 +442,7 @@ func init() {
 			if tier == "thorough" {
 				blocks = "complete blocks: patterns <=3 x keys <=5, patterns =4 x keys <=4, patterns =5 x keys <=3 over {a,b,*,?,.,+,(,|,$}; the remaining patterns =5 x keys 4..5 block is sampled (150 keys per pattern)"
 			}
-			return "part 1: glob.Compile(p) must not fail or panic and MatchString(k) must equal a direct recursive glob matcher: " + blocks + "; plus seeded random patterns up to length 12 over that alphabet extended with ^ { } ) , space newline 0 (one in forty with a byte that is not valid UTF-8), each against 60 keys derived from the pattern or random. part 2: the bundled example store is populated through the real connection loop with all 91 keys of length <=2 (as string, hash, list and set keys) and for every pattern of length <=3 plus seeded longer ones the key sets of KEYS p, SCAN 0 MATCH p COUNT 1000 and the reference selection must be equal; for '*' and four patterns of each batch a full SCAN iteration (cursor 0, then the returned cursor, until 0 comes back) with default COUNT and COUNT 1, 3, 7 must end and select exactly those keys, and a SCAN call that continues an iteration begun with ANOTHER pattern must return only keys its own pattern selects. distinct_nontrivial = distinct patterns containing a wildcard or a regexp metacharacter (part 1) plus server patterns (part 2)"
+			return "part 1: glob.Compile(p) must not fail or panic and MatchString(k) must equal a direct recursive glob matcher: " + blocks + "; plus seeded random patterns up to length 12 over that alphabet extended with ^ { } ) , space newline 0 (one in forty with a byte that is not valid UTF-8), each against 60 keys derived from the pattern or random. part 2: the bundled example store is populated through the real connection loop with all 91 keys of length <=2 (as string, hash, list and set keys) and for every pattern of length <=3 plus seeded longer ones the key sets of KEYS p, SCAN 0 MATCH p COUNT 1000 and the reference selection must be equal; for '*' and four patterns of each batch a full SCAN iteration (cursor 0, then the returned cursor, until 0 comes back) with default COUNT and COUNT 1, 3, 7 must end and select exactly those keys, and a SCAN call that continues an iteration begun with ANOTHER pattern must return only keys its own pattern selects; one batch in eight repeats the full iterations over a store of 2500 keys with COUNT from 1 to 5000. distinct_nontrivial = distinct patterns containing a wildcard or a regexp metacharacter (part 1) plus server patterns (part 2)"
 		},
 		Exhaustive:  func(tier string) bool { return false },
 		Assumptions: []string{"patterns and keys are ASCII; '[', ']' and '\\' (character classes and escapes of Redis globs) are outside the statement and never generated"},
